@@ -386,19 +386,19 @@ def _append_path(t, p):
     return ("proj", t, tuple(p))
 
 
-def inline_private_calls(sym, prog, t, skip=(), depth=0):
+def inline_private_calls(sym, prog, t, skip=(), depth=0, public_ok=False):
     """Replace calls to crate-private, non-role helper functions by their (parameter-substituted) return term, so that a value
     computed in a small helper (`fn algo(&self) -> Algorithm { self.algorithm.unwrap_or(Sha256) }`) is seen as what it is.
     Calls whose helper's return term cannot be expressed (unknown / cyclic) are left alone."""
     if depth > 3 or not isinstance(t, tuple) or not t:
         return t
     k = t[0]
-    rec = lambda x: inline_private_calls(sym, prog, x, skip, depth)
+    rec = lambda x: inline_private_calls(sym, prog, x, skip, depth, public_ok)
     if k == "call":
         args = tuple(rec(a) for a in t[2])
         t = ("call", t[1], args) + tuple(t[3:])
         g = prog.fns.get(t[1])
-        if g is not None and t[1] not in skip and not g.outer.reachable and not g.outer.impl_trait:
+        if g is not None and t[1] not in skip and (public_ok or (not g.outer.reachable and not g.outer.impl_trait)):
             rt = sym.of_place(g.body, 0, ())
             if not any(st[0] == "unknown" for st in walk(rt)) and rt[0] != "unknown":
                 def subst(x):
@@ -420,7 +420,7 @@ def inline_private_calls(sym, prog, t, skip=(), depth=0):
                         return ("pushed", subst(x[1]), tuple(subst(a) for a in x[2]))
                     return x
                 out = _append_path(subst(rt), t[3])
-                return inline_private_calls(sym, prog, out, skip, depth + 1)
+                return inline_private_calls(sym, prog, out, skip, depth + 1, public_ok)
         return t
     if k == "agg":
         return t[:3] + (tuple((f, rec(v)) for f, v in t[3]),) + tuple(t[4:])
